@@ -18,6 +18,17 @@ MANIFEST = dict(
     note="Trusted: TLC, the Go driver (byte generator, content comparison flags fok/pok, panic recovery), JSON trace I/O. Payload bytes of the big length classes are not in the trace (opaque segments); their identity is vouched for by the driver's comparison. 64-bit lengths >= 2^31 are classes in TLA+ (TLC integers are 32 bit). Byte strings outside the enumerated table are covered by sampling only.",
     design_ref="5/C07")
 
+def _zero_actions(r):
+    """Actions of the spec that TLC's -coverage report shows with no generated state (vacuity control)."""
+    import re
+    zero = []
+    for line in open(r.outpath, errors="replace"):
+        m = re.match(r"^<(\w+) line \d+, col \d+ to line \d+, col \d+ of module (\w+)>: (\d+):(\d+)", line)
+        if m and int(m.group(4)) == 0:
+            zero.append(m.group(2) + "!" + m.group(1))
+    return sorted(set(zero))
+
+
 QUICK_B0 = "{0, 1, 2, 3, 8, 9, 10, 15, 113, 129, 130, 136, 137, 138, 241, 255}"
 FIELDS0 = dict(c="wsdec", ev="", sid=0, i=0, max=0, segs=[], take=0, kind="", flen=0, fok=0, blen=0, grow=0,
                rl=0, wl=0, fin=0, rsv=0, op=0, m=0, plen=0, pok=-1, reuse=0)
@@ -107,6 +118,44 @@ def gen_random(path, seed, n):
 
 
 # --------------------------------------------------------------------------
+# every split offset (not only the classes) for short frames
+# --------------------------------------------------------------------------
+def gen_allsplits(path, tier):
+    import itertools
+    frames = []
+    for m in (0, 1):
+        for form in (7, 16, 64):
+            for n in ((0, 2) if tier == "quick" else (0, 1, 2, 3)):
+                b = [0x82, (128 if m else 0) | (n if form == 7 else 126 if form == 16 else 127)]
+                if form == 16:
+                    b += [0, n]
+                elif form == 64:
+                    b += [0, 0, 0, 0, 0, 0, 0, n]
+                if m:
+                    b += [0xA1, 0xB2, 0xC3, 0xD4]
+                b += [0x30 + k for k in range(n)]
+                frames.append(b + [0x81, 0x00])       # followed by an empty text frame
+    cnt = 0
+    with open(path, "w") as f:
+        for b in frames:
+            L = len(b)
+            combos = [tuple(range(1, L))]                                   # one byte at a time
+            combos += list(itertools.combinations(range(1, L), 1))
+            combos += list(itertools.combinations(range(1, L), 2))
+            if tier != "quick":
+                combos += list(itertools.combinations(range(1, L), 3))
+            for cuts in combos:
+                steps = [_step("New", max=20), _step("Bytes", segs=[{"n": L, "b": b}])]
+                prev = 0
+                for c in list(cuts) + [L]:
+                    steps.append(_step("Dec", take=c - prev))
+                    prev = c
+                f.write(json.dumps(steps) + "\n")
+                cnt += 1
+    return cnt
+
+
+# --------------------------------------------------------------------------
 def _validate(ck, sw, name, beh, label, want_sample=False):
     trace = os.path.join(ck.work, "trace_%s.ndjson" % name)
     summ, _ = vlib.run_replay(["wsdec", "-in", beh, "-out", trace])
@@ -174,6 +223,8 @@ def run(ck):
         if not r.ok:
             raise vlib.Inconclusive("WsDecImpl %s: %s\n%s" % (name, r.violated or r.error, r.tail()))
         ck.add_tlc("WsDecImpl transition cover " + name, r, consts)
+        if ck.tier == "thorough":
+            ck.cov.setdefault("coverage_zero_actions", {})[name] = _zero_actions(r)
         for line in r.lines('<<"MODELBAD"'):
             model_findings.add(line.split('"')[3])
         beh = os.path.join(ck.work, "cover_%s.jsonl" % name)
@@ -186,6 +237,11 @@ def run(ck):
         beh = os.path.join(ck.work, "rand_%d.jsonl" % k)
         gen_random(beh, ck.seed * 1000 + k, 2000 if ck.tier == "quick" else 12500)
         _validate(ck, sw, "rand_%d" % k, beh, "random/mutated byte strings #%d" % k, want_sample=(k == 0))
+
+    def allsplits():
+        beh = os.path.join(ck.work, "allsplits.jsonl")
+        gen_allsplits(beh, ck.tier)
+        _validate(ck, sw, "allsplits", beh, "every split offset of short frames")
 
     def bugswitch():
         # the model with a repaired defect switched back on must be rejected by its own monitor
@@ -201,6 +257,7 @@ def run(ck):
     nrand = 1 if ck.tier == "quick" else 8
     with ThreadPoolExecutor(max_workers=3 if ck.tier == "quick" else 4) as ex:
         futs = [ex.submit(cover, c) for c in _configs(ck.tier)] + [ex.submit(rand, k) for k in range(nrand)]
+        futs.append(ex.submit(allsplits))
         futs.append(ex.submit(bugswitch))
         for f in futs:
             f.result()
